@@ -19,3 +19,18 @@ extern "C" void h_factories(void) {
    vp_assert(v.checks >= 1, 2);        // every factory reports at least one operand check (guards the zoo itself against empty cases)
    vp_done();
 }
+// the same factory used twice on one Lexicon with independently picked operands: the second node reports the second operands
+// (a factory that remembers its last request, or shares storage between calls, is visible here and not in a single use)
+extern "C" void h_twice(void) {
+   unsigned total = zoo::count();
+   zoo::World* w = new zoo::World;
+   unsigned which = vp_pick(total);
+   vp_observe(1, which);
+   Operand_check v;
+   zoo::build(*w, which, v);
+   int first = v.checks;
+   w->reg = w->reg->make_subregion();       // declarations of the second use go to a fresh scope (the zoo's oracles describe a first declaration, not a redeclaration)
+   zoo::build(*w, which, v);
+   vp_assert(v.checks >= first + 1, 3);
+   vp_done();
+}
